@@ -235,4 +235,5 @@ pub fn run(ctx: &mut Ctx) {
     crate::spaces::render_probes(ctx, &["cat", "substr"]);
     crate::spaces::width_probes(ctx);
     crate::spaces::type_grid_probes(ctx, &["cat", "substr"]);
+    crate::spaces::depth_probes(ctx);
 }
